@@ -1,7 +1,7 @@
 #!/venv/bin/python
 """Seeded-defect bookkeeping.
 
-  tools/seeded.py import <worktree> <Cxx>     copy <worktree>/SEEDED/{A,B} to seeded/<Cxx>-<a|b>/
+  tools/seeded.py import <worktree> <Cxx> [round]   copy <worktree>/SEEDED/{A,B} to seeded/<Cxx>-<a|b>/ (round 2: c|d)
   tools/seeded.py verify <name>...            confirm each seeded change myself in a scratch copy:
                                                patch applies, repo tests unchanged, demo fails with / passes without
   tools/seeded.py check <name>... [--tier t]  run the property's check(s) against the patched scratch copy
@@ -29,12 +29,13 @@ def scratch_repo():
     return d, repo
 
 
-def cmd_import(wt, pid):
+def cmd_import(wt, pid, rnd=1):
     for v in ("A", "B"):
         src = os.path.join(wt, "SEEDED", v)
         if not os.path.isdir(src):
             continue
-        dst = os.path.join(SEEDED, f"{pid}-{v.lower()}")
+        letter = chr(ord(v.lower()) + 2 * (rnd - 1))  # round 2 -> c, d; round 3 -> e, f
+        dst = os.path.join(SEEDED, f"{pid}-{letter}")
         os.makedirs(dst, exist_ok=True)
         for f in os.listdir(src):
             if f.startswith("__"):
@@ -148,7 +149,7 @@ def cmd_table():
 if __name__ == "__main__":
     c = sys.argv[1]
     if c == "import":
-        cmd_import(sys.argv[2], sys.argv[3])
+        cmd_import(sys.argv[2], sys.argv[3], int(sys.argv[4]) if len(sys.argv) > 4 else 1)
     elif c == "verify":
         cmd_verify(sys.argv[2:])
     elif c == "check":
